@@ -342,7 +342,11 @@ class Gen:
             q, c = r.choice([x for x in st["cols"] if not x[1].startswith("?")])
             ks.append((r.random() < 0.4, ("col", q, c)))
         if r.random() < 0.2:
-            ks.append((r.random() < 0.5, self.num(st["cols"], 1)))
+            e = self.num(st["cols"], 1)
+            if e[0] == "neg":
+                # in a sort list a leading unary minus (even parenthesised) is the DIRECTION marker, not arithmetic
+                e = ("bin", "Sub", ("lit", 0), e[1])
+            ks.append((r.random() < 0.5, e))
         ks.append((r.random() < 0.4, st["uniq"]))
         st["order"] = ks
         st.pop("uniq_dropped", None)
